@@ -60,7 +60,11 @@ func (s *ScanMethod) ProcessPacketData(data []byte, _ *gopacket.CaptureInfo) err
 	if err := s.parser.DecodeLayers(data, &s.rcvDecoded); err != nil {
 		return err
 	}
-	if len(s.rcvDecoded) != 2 {
+	// check layer types, not only their number: an Ethernet frame nested in
+	// another one (transparent Ethernet bridging) gives two layers as well,
+	// but the ARP layer was not decoded from this packet
+	if len(s.rcvDecoded) != 2 || s.rcvDecoded[0] != layers.LayerTypeEthernet ||
+		s.rcvDecoded[1] != layers.LayerTypeARP {
 		return nil
 	}
 	// only IPv4 over Ethernet is valid: 6-byte hardware and 4-byte protocol addresses
